@@ -2255,3 +2255,38 @@ def _poll_is_ready(it, key, raw, args):
 @model('Poll::is_pending')
 def _poll_is_pending(it, key, raw, args):
     return deref(args[0]).variant == 1
+
+
+# ----- operator traits on primitives (and references to them)
+def _op_model(op, checked):
+    def f(it, key, raw, args):
+        a, b = deref(args[0]), deref(args[1])
+        if checked and isinstance(a, SInt):
+            r = it.binop(op + 'WithOverflow', a, b)
+            if it.mode == 'dev' and it.branch(r.fields[1].v):
+                raise Panic('attempt to %s with overflow' % op.lower())
+            return r.fields[0].v
+        return it.binop(op, a, b)
+    return f
+
+
+for _tr, _m, _op, _chk in (('Add', 'add', 'Add', True), ('Sub', 'sub', 'Sub', True), ('Mul', 'mul', 'Mul', True), ('Div', 'div', 'Div', False),
+                           ('Rem', 'rem', 'Rem', False), ('BitXor', 'bitxor', 'BitXor', False), ('BitAnd', 'bitand', 'BitAnd', False),
+                           ('BitOr', 'bitor', 'BitOr', False), ('Shl', 'shl', 'Shl', False), ('Shr', 'shr', 'Shr', False)):
+    if '<* as %s>::%s' % (_tr, _m) not in MODELS:
+        MODELS['<* as %s>::%s' % (_tr, _m)] = _op_model(_op, _chk)
+
+
+def _assign_model(op, checked):
+    inner = _op_model(op, checked)
+
+    def f(it, key, raw, args):
+        c = args[0].cell
+        c.v = inner(it, key, raw, [c.v, args[1]])
+        return UNIT
+    return f
+
+
+for _tr, _m, _op, _chk in (('AddAssign', 'add_assign', 'Add', True), ('SubAssign', 'sub_assign', 'Sub', True), ('MulAssign', 'mul_assign', 'Mul', True),
+                           ('BitXorAssign', 'bitxor_assign', 'BitXor', False), ('BitOrAssign', 'bitor_assign', 'BitOr', False)):
+    MODELS['<* as %s>::%s' % (_tr, _m)] = _assign_model(_op, _chk)
